@@ -1,6 +1,6 @@
 (* C18/FileProofs.v — ParseIndexFile on the image of a well-formed index file of any number of pages. *)
 Require Import PG.Base.Bytes PG.Base.GoSlice PG.C18.Types PG.C18.Model PG.C18.Spec PG.C18.Lib
-  PG.C18.SpecialProofs PG.C18.PageProofs PG.C18.MetaProofs.
+  PG.C18.SpecialProofs PG.C18.PageProofs PG.C18.MetaProofs PG.C18.WfProofs.
 
 Definition page_of (m : am) (p : ipage) : Prop := wf_page p /\ am_of (ip_op p) = m.
 
@@ -96,3 +96,33 @@ Proof.
   - rewrite MC. reflexivity.
   - rewrite MC. reflexivity.
 Qed.
+
+(* ---------- corollaries ---------- *)
+Lemma am_code_inj a b : am_code a = am_code b -> a = b.
+Proof. destruct a, b; cbn; intros; try reflexivity; discriminate. Qed.
+
+(* no byte string is the image of first pages of two different methods *)
+Lemma classify_distinct p1 p2 :
+  wf_page p1 -> first_ok p1 -> wf_page p2 -> first_ok p2 ->
+  enc_page p1 = enc_page p2 -> am_of (ip_op p1) = am_of (ip_op p2).
+Proof.
+  intros W1 F1 W2 F2 E. pose proof (detect_ok p1 [] W1 F1) as D1. pose proof (detect_ok p2 [] W2 F2) as D2.
+  rewrite E in D1. rewrite D1 in D2. injection D2. apply am_code_inj.
+Qed.
+
+(* non-vacuity: a two-page B-tree file (metapage + root/leaf) and a three-page BRIN file *)
+Definition ex_btmeta : bt_metadata :=
+  {| btm_magic := BTREE_MAGIC; btm_version := 4; btm_root := 1; btm_level := 0; btm_fastroot := 1; btm_fastlevel := 0 |}.
+Definition ex_bt_file : ifile :=
+  {| f_pages := [ {| ip_xlogid := 0; ip_xrecoff := 21966400; ip_checksum := 0; ip_hflags := 0; ip_lower := 72; ip_upper := 8176;
+                     ip_psv := 8196; ip_prune := 0; ip_body := BBTMeta ex_btmeta (zeros 8128); ip_op := OpBT 0 0 0 8 0 |};
+                  {| ip_xlogid := 0; ip_xrecoff := 21970000; ip_checksum := 0; ip_hflags := 0; ip_lower := 424; ip_upper := 6576;
+                     ip_psv := 8196; ip_prune := 0; ip_body := BRaw (zeros 8152); ip_op := OpBT 0 0 0 3 65407 |} ];
+     f_junk := zeros 100 |}.
+Example ex_bt_file_wf : wf_file ex_bt_file.
+Proof. apply WfProofs.wf_file_b_ok. vm_compute. reflexivity. Qed.
+Definition ex_brin_page (t : Z) : ipage :=
+  {| ip_xlogid := 1; ip_xrecoff := 2; ip_checksum := 0; ip_hflags := 0; ip_lower := 24; ip_upper := 8184;
+     ip_psv := 8196; ip_prune := 0; ip_body := BRaw (zeros 8160); ip_op := OpBRIN 0 0 1 t |}.
+Example ex_brin_file_wf : wf_file {| f_pages := [ex_brin_page 61585; ex_brin_page 61586; ex_brin_page 61587]; f_junk := [] |}.
+Proof. apply WfProofs.wf_file_b_ok. vm_compute. reflexivity. Qed.
